@@ -55,3 +55,14 @@ Theorem C19_synthesis :
 Proof. exact @nonsep_syn_eq. Qed.
 Print Assumptions C19_synthesis.
 
+(* analysis, periodization: even filter lengths (every discrete wavelet) not longer than the even-extended image on each axis - the
+   guard under which the separable periodization code is itself correct (C01/C17; below it see the known finding there) *)
+From PW Require Import Proofs.C19ProofsPer.
+Theorem C19_analysis_per :
+  forall (R:Type) (Op:Ops R) (Rth:RingOk Op) (x:@ten R) Ly h0c h1c Lx h0r h1r,
+  2 <= Ly -> Ly mod 2 = 0 -> Ly <= even_len (tH x) -> 2 <= Lx -> Lx mod 2 = 0 -> Lx <= even_len (tW x) -> 1 <= tH x -> 1 <= tW x -> 0 < tC x ->
+  is_ok (afb2d_nonsep Op x Ly h0c h1c Lx h0r h1r M_PER) (fun y1 =>
+  is_ok (afb2d Op x Lx (rev_filt Lx h0r) (rev_filt Lx h1r) Ly (rev_filt Ly h0c) (rev_filt Ly h1c) M_PER) (fun y2 =>
+    same_vals (even_len (tH x) / 2) (even_len (tW x) / 2) y1 y2)).
+Proof. exact @nonsep_per_eq. Qed.
+Print Assumptions C19_analysis_per.
